@@ -26,6 +26,8 @@ struct Seg {
     ty: u32,
     off: u32,
     vaddr: u32,
+    /// p_paddr - p_vaddr (C11 does not fix it; C12 is stated for 0)
+    pdelta: u32,
     filesz: u32,
     memsz: u32,
 }
@@ -46,7 +48,7 @@ fn graphic_name(rng: &mut Rng, maxlen: u64) -> String {
 }
 
 /// Build one structurally valid ELF32-BE file (see the quantifier of C11/C12).
-pub fn gen_elf(rng: &mut Rng, trailing_nonload: bool) -> Vec<u8> {
+pub fn gen_elf(rng: &mut Rng, trailing_nonload: bool, shifted_phys: bool) -> Vec<u8> {
     let mut file: Vec<u8> = vec![0; 52];
     // ---- PT_LOAD segments: ascending, non-overlapping virtual ranges, arbitrary file offsets
     let nload = rng.range(1, 4) as usize;
@@ -77,7 +79,8 @@ pub fn gen_elf(rng: &mut Rng, trailing_nonload: bool) -> Vec<u8> {
             }
             _ => (0..filesz).map(|_| rng.u8()).collect(),
         };
-        segs.push(Seg { ty: 1, off: 0, vaddr, filesz, memsz });
+        let pdelta = if shifted_phys && rng.chance(2, 3) { *rng.pick(&[4u32, 0x40, 0x100, 0x1000, 0x2344]) + 4 * rng.below(8) as u32 } else { 0 };
+        segs.push(Seg { ty: 1, off: 0, vaddr, pdelta, filesz, memsz });
         blobs.push((k, data));
         vaddr += memsz + if rng.chance(1, 2) { 0 } else { rng.below(200) as u32 };
         vaddr = (vaddr + 3) & !3;
@@ -123,12 +126,12 @@ pub fn gen_elf(rng: &mut Rng, trailing_nonload: bool) -> Vec<u8> {
     let nonload_types = [0u32, 2, 4, 6, 0x6474e551, 0x70000000];
     for s in segs {
         while rng.chance(1, 4) {
-            pht.push(Seg { ty: *rng.pick(&nonload_types), off: rng.u32() & 0xffff, vaddr: rng.u32() & 0xfffff, filesz: rng.u32() & 0xffff, memsz: rng.u32() & 0xfffff });
+            pht.push(Seg { ty: *rng.pick(&nonload_types), off: rng.u32() & 0xffff, vaddr: rng.u32() & 0xfffff, pdelta: if rng.chance(1, 2) { 0 } else { rng.u32() & 0xffff }, filesz: rng.u32() & 0xffff, memsz: rng.u32() & 0xfffff });
         }
         pht.push(s);
     }
     if trailing_nonload || rng.chance(1, 4) {
-        pht.push(Seg { ty: *rng.pick(&nonload_types), off: rng.u32() & 0xffff, vaddr: rng.u32() & 0xfffff, filesz: rng.u32() & 0xffff, memsz: rng.u32() & 0x7ffff });
+        pht.push(Seg { ty: *rng.pick(&nonload_types), off: rng.u32() & 0xffff, vaddr: rng.u32() & 0xfffff, pdelta: if rng.chance(1, 2) { 0 } else { rng.u32() & 0xffff }, filesz: rng.u32() & 0xffff, memsz: rng.u32() & 0x7ffff });
     }
     // ---- symbols
     let nsym = rng.range(1, 200) as usize;
@@ -223,7 +226,7 @@ pub fn gen_elf(rng: &mut Rng, trailing_nonload: bool) -> Vec<u8> {
     }
     let phoff = file.len() as u32;
     for p in &pht {
-        for v in [p.ty, p.off, p.vaddr, p.vaddr, p.filesz, p.memsz, 5, 4] {
+        for v in [p.ty, p.off, p.vaddr, p.vaddr.wrapping_add(p.pdelta), p.filesz, p.memsz, 5, 4] {
             file.extend_from_slice(&be32(v));
         }
     }
@@ -312,7 +315,8 @@ impl Mode for ElfMode {
         std::fs::create_dir_all(&dir).unwrap();
         let n = if ctx.quick() { 3000 } else { 60000 } / ctx.nshards;
         for k in 0..n {
-            let file = gen_elf(&mut rng, k % 7 == 3);
+            // every fifth file has physical addresses above the virtual ones (in the domain of C11, not of C12)
+            let file = gen_elf(&mut rng, k % 7 == 3, k % 5 == 2);
             let path = dir.join(format!("f{}.elf", k));
             std::fs::write(&path, &file).unwrap();
             let args = gen_args(&mut rng);
@@ -347,8 +351,8 @@ impl Mode for ElfMode {
             Some((m, s)) => (m.trim_start_matches("M ").to_string(), s.trim_start_matches("S ").to_string()),
             None => (drv.to_string(), String::new()),
         };
-        let dom = field(&s, "dom") == Some("1");
-        let key = format!("elf {}", field(&s, "shape").unwrap_or("-"));
+        let dom = field(&s, if ctx.prop == "C11" { "dom11" } else { "dom" }) == Some("1");
+        let key = format!("elf {} phys-{}", field(&s, "shape").unwrap_or("-"), field(&s, "phys").unwrap_or("-"));
         let corr = if imp != m { Some(first_diff(imp, &m)) } else { None };
         if !dom {
             return (match corr { Some(c) => Verdict::Corr(c), None => Verdict::Out }, key, None);
@@ -356,10 +360,24 @@ impl Mode for ElfMode {
         // C11: DRAM image + nothing outside DRAM; C12: registers, exit address (the argument block is part of the image dump)
         let keys: &[&str] = if ctx.prop == "C11" { &["dram", "other"] } else { &["er", "exit", "dram", "other"] };
         // C11 is about the image: blocks below the (64-byte rounded) image end; the stack / argument block is C12's
-        let imgend = u32::from_str_radix(field(&s, "imgend").unwrap_or("ffffffff"), 16).unwrap_or(u32::MAX);
+        // (the block the image ends in is cut at the exact image end `imgx`)
+        let imgx = u32::from_str_radix(field(&s, "imgx").unwrap_or("ffffffff"), 16).unwrap_or(u32::MAX);
         let image_part = |d: &str| -> String {
             d.split(';')
-                .filter(|e| e.split(':').next().map(|a| u32::from_str_radix(a, 16).unwrap_or(0) < imgend).unwrap_or(false))
+                .filter_map(|e| {
+                    let (a, h) = e.split_once(':')?;
+                    let a = u32::from_str_radix(a, 16).ok()?;
+                    if a >= imgx {
+                        return None;
+                    }
+                    let keep = ((imgx - a).min(64) * 2) as usize;
+                    let h = &h[..keep.min(h.len())];
+                    if h.bytes().all(|c| c == b'0') {
+                        None
+                    } else {
+                        Some(format!("{:x}:{}", a, h))
+                    }
+                })
                 .collect::<Vec<_>>()
                 .join(";")
         };
